@@ -1,13 +1,22 @@
 """C02 — Deferred chaining depth never exhausts the stack.
 
-Engine E1 (tasks).  Three families, all on real Deferreds / inlineCallbacks /
+Engine E1 (tasks).  Four families, all on real Deferreds / inlineCallbacks /
 coroutines with the default recursion limit:
 
 * chain  — N Deferreds, d_k's first callback returns d_{k+1}; each d_k is
   pre-fired before the chain is built, or fired later in ascending, descending
   or a shuffled order; a subset is paused and unpaused later; own results and
-  the second callback of each d_k produce successes, failures, raises and
-  recoveries in tape-chosen periodic patterns.
+  the 1..3 follow-up callbacks of each d_k produce successes, failures, raises
+  and recoveries in tape-chosen periodic patterns - as plain return values /
+  raises or, for a tape-chosen periodic subset, wrapped in an ALREADY-FIRED
+  Deferred (succeed()/fail(), a hand-fired Deferred, or a fired Deferred that
+  got its result by chaining itself), i.e. one more implicit chaining step per
+  follow-up callback.
+* pipe   — ONE Deferred with N callbacks (the callback-style twin of the loops
+  below): every step returns a plain value / raises, an already-fired Deferred
+  (success or failure), or its own Deferred u_k that is pre-fired, fired later
+  in tape order, or fired-but-paused and unpaused later; the pipeline Deferred
+  is fired before or after its callbacks are added.
 * inline — an @inlineCallbacks generator awaiting M Deferreds (pre-fired subset,
   rest fired later in tape order), including yields of nested already-finished
   generators/coroutines.
@@ -29,7 +38,7 @@ from twisted.python.failure import Failure
 ID = "C02"
 ENGINE = "tasks"
 LEVEL = "exploration"
-TECHNIQUE = ("deterministic simulation: seeded chain shape / firing order / pause pattern on real Deferred chains, inlineCallbacks "
+TECHNIQUE = ("deterministic simulation: seeded chain shape / firing order / pause pattern on real Deferred chains, callback pipelines, inlineCallbacks "
              "and coroutines, with a frame-walking stack probe compared against the same shape at length 12")
 QUICK_RUNS = 1600
 BATCH = 12
@@ -37,11 +46,18 @@ RUN_WALL_LIMIT_S = 120
 COMPONENTS = {"real": ["twisted.internet.defer.Deferred._runCallbacks", "twisted.internet.defer._inlineCallbacks / inlineCallbacks",
                        "twisted.internet.defer.ensureDeferred / Deferred.__await__", "twisted.python.failure.Failure"],
               "stub": ["firing order / pause pattern of the program (tape)"]}
-RULE = ("run = one chain of N Deferreds (d_k's callback returns d_k+1) or one inlineCallbacks/async loop over M awaits, N,M in 10..10^5 "
+RULE = ("run = one chain of N Deferreds (d_k's callback returns d_k+1, followed by 1..3 follow-up callbacks per link), one pipeline (ONE Deferred with N "
+        "callbacks) or one inlineCallbacks/async loop over M awaits, N,M in 10..10^5 "
         "(size classes 10-200 / 200-2000 / 2000-20000 / 20000-100000 with weights 60/30/9/1), firing order, pre-fired subset, paused subset, "
-        "success/failure patterns chosen by the tape; non-trivial = length >= 100 (a recursive implementation would already exceed the stack bound)")
+        "success/failure patterns chosen by the tape; a tape-chosen periodic subset of chain follow-ups / pipeline steps returns an ALREADY-FIRED Deferred "
+        "(success or failure; succeed()/fail(), hand-fired, or fired-by-chaining) instead of a plain value, and a periodic subset of pipeline steps returns "
+        "its own Deferred that is pre-fired, fired later or fired-but-paused; non-trivial = length >= 100 (a recursive implementation would already exceed "
+        "the stack bound)")
 ASSUMPTIONS = ["CPython default recursion limit (1000) is left untouched", "operations are issued from outside callbacks",
-               "the top size class (2*10^4..10^5) is drawn in about 1% of runs in either tier"]
+               "the top size class (2*10^4..10^5) is drawn in about 1% of runs in either tier",
+               "'chain' is read as: every implicit chaining step (a callback returning a Deferred, fired or not) of a program whose number of such "
+               "steps is N - links of a chain, steps of a pipeline on one Deferred, or both mixed; each follow-up / step outcome equals the plain-value "
+               "outcome whether or not it is wrapped in an already-fired Deferred (documented Deferred chaining semantics)"]
 
 SLACK = 6
 BASELINE_LEN = 12
@@ -81,15 +97,69 @@ def order_of(items, how, seed):
     return items
 
 
+# ---------------------------------------------------------------- shared: step outcomes
+
+def is_ready(key, cfg):
+    """Does follow-up callback `key` hand its outcome back wrapped in an already-fired Deferred?"""
+    rd = cfg.get("ready_mod", 0)
+    return bool(rd) and key % rd == 0
+
+
+def ready_deferred(outcome, cfg, out):
+    """An ALREADY-FIRED Deferred carrying `outcome` (a plain value, a Failure or an exception instance)."""
+    out["ready"] = out.get("ready", 0) + 1
+    kind = cfg.get("ready_kind", "helper")
+    failing = isinstance(outcome, (Failure, BaseException))
+    if failing:
+        out["ready_failed"] = out.get("ready_failed", 0) + 1
+    if kind == "manual":
+        d = defer.Deferred()
+        if failing:
+            d.errback(outcome)
+        else:
+            d.callback(outcome)
+        return d
+    inner = defer.fail(outcome) if failing else defer.succeed(outcome)
+    if kind == "chained":
+        # a fired Deferred that obtained its result by chaining itself to a fired Deferred
+        return defer.succeed(None).addCallback(lambda _: inner)
+    return inner
+
+
+def step_outcome(res, key, cfg, out):
+    """What follow-up callback `key` does with its input (the real-side twin of b_model): returns / raises."""
+    rm, rz = cfg["recover_mod"], cfg["raise_mod"]
+    if isinstance(res, Failure):
+        r = key if (rm and key % rm == 0) else res
+    elif rz and key % rz == 0:
+        if is_ready(key, cfg):
+            return ready_deferred(Boom(key), cfg, out)
+        raise Boom(key)
+    else:
+        r = (res + 1) % MOD
+    if is_ready(key, cfg):
+        return ready_deferred(r, cfg, out)
+    return r
+
+
+def fire(d, v):
+    if isinstance(v, tuple):
+        d.errback(Boom(v[1]))
+    else:
+        d.callback(v)
+
+
 # ---------------------------------------------------------------- family: chain
 
 def chain_model(n, cfg):
-    """Trivial sequential model: value threaded from d_{n-1} back to d_0."""
-    exp_in = [None] * n
+    """Trivial sequential model: value threaded from d_{n-1} back to d_0 through the w follow-up callbacks of each link."""
+    w = cfg.get("per_link", 1)
+    exp_in = [None] * (n * w)
     x = own_value(n - 1, cfg)
     for k in range(n - 1, -1, -1):
-        exp_in[k] = x
-        x = b_model(k, x, cfg)
+        for key in range(k * w, k * w + w):
+            exp_in[key] = x
+            x = b_model(key, x, cfg)
     return exp_in, x
 
 
@@ -115,51 +185,39 @@ def b_model(k, x, cfg):
 def run_chain(n, cfg, out):
     """Build and fire one chain; out collects depth / mismatches.  Returns (d_0, expected final)."""
     exp_in, final = chain_model(n, cfg)
-    seen = bytearray(n)
+    w = cfg.get("per_link", 1)
+    seen = bytearray(n * w)
     bad = out["bad"]
     base = depth()
-    rm, rz = cfg["recover_mod"], cfg["raise_mod"]
 
     def nxt(res, k):
         return ds[k + 1]
 
-    def body(res, k):
+    def body(res, key):
         x = depth() - base
         if x > out["maxdepth"]:
             out["maxdepth"] = x
-        seen[k] += 1
+        seen[key] += 1
         got = absval(res)
-        if got != exp_in[k] and len(bad) < 5:
-            bad.append((k, got, exp_in[k]))
-        if isinstance(res, Failure):
-            if rm and k % rm == 0:
-                return k
-            return res
-        if rz and k % rz == 0:
-            raise Boom(k)
-        return (res + 1) % MOD
+        if got != exp_in[key] and len(bad) < 5:
+            bad.append((key, got, exp_in[key]))
+        return step_outcome(res, key, cfg, out)
 
     pm, zm = cfg["prefire_mod"], cfg["pause_mod"]
     prefired = [bool(pm) and k % pm == 0 for k in range(n)]
     paused = [bool(zm) and k % zm == 1 for k in range(n)]
 
-    def fire(d, k):
-        v = own_value(k, cfg)
-        if isinstance(v, tuple):
-            d.errback(Boom(v[1]))
-        else:
-            d.callback(v)
-
     ds = [None] * n
     for k in range(n - 1, -1, -1):          # built from the far end so that pre-fired heads find a complete tail
         d = ds[k] = defer.Deferred()
         if prefired[k]:
-            fire(d, k)
+            fire(d, own_value(k, cfg))
         if paused[k]:
             d.pause()
         if k < n - 1:
             d.addBoth(nxt, k)
-        d.addBoth(body, k)
+        for key in range(k * w, k * w + w):
+            d.addBoth(body, key)
     ops = [("fire", k) for k in order_of([k for k in range(n) if not prefired[k]], cfg["fire_order"], cfg["shuffle_seed"])]
     lm = cfg.get("late_mod", 0)
     if lm:
@@ -185,12 +243,12 @@ def run_chain(n, cfg, out):
         random.Random(cfg["shuffle_seed"] + 2).shuffle(ops)
     for op, k in ops:
         if op == "fire":
-            fire(ds[k], k)
+            fire(ds[k], own_value(k, cfg))
         elif op == "late":
             ds[k].addBoth(late, k)
         else:
             ds[k].unpause()
-    out["calls_wrong"] = [k for k in range(n) if seen[k] != 1][:5]
+    out["calls_wrong"] = [key for key in range(n * w) if seen[key] != 1][:5]
     out["unfinished"] = [k for k in range(n) if not ds[k].called or ds[k].paused or ds[k].callbacks][:5]
     d0 = ds[0]
     res = absval(getattr(d0, "result", "<no-result>"))
@@ -199,6 +257,89 @@ def run_chain(n, cfg, out):
         r = getattr(d, "result", None)
         if isinstance(r, Failure):
             d.addErrback(lambda f: None)
+    return res, final
+
+
+# ---------------------------------------------------------------- family: pipe
+
+def pipe_waits(n, cfg):
+    wm = cfg["wait_mod"]
+    return [k for k in range(n) if wm and k % wm == 1]
+
+
+def pipe_model(n, cfg):
+    """Trivial sequential model of ONE Deferred with n callbacks: step k maps its input like a chain follow-up, except a
+    'wait' step, whose outcome is the result its own Deferred u_k is fired with."""
+    waits = set(pipe_waits(n, cfg))
+    exp_in = [None] * n
+    x = own_value(n, cfg)
+    for k in range(n):
+        exp_in[k] = x
+        x = own_value(k, cfg) if k in waits else b_model(k, x, cfg)
+    return exp_in, x
+
+
+def run_pipe(n, cfg, out):
+    exp_in, final = pipe_model(n, cfg)
+    seen = bytearray(n)
+    bad = out["bad"]
+    base = depth()
+    pm, zm = cfg["prefire_mod"], cfg["pause_mod"]
+    waits = pipe_waits(n, cfg)
+    us, later, paused = {}, [], []
+    for i, k in enumerate(waits):
+        u = us[k] = defer.Deferred()
+        if pm and i % pm == 0:
+            fire(u, own_value(k, cfg))
+        else:
+            later.append(k)
+        if zm and i % zm == 1:
+            u.pause()
+            paused.append(k)
+
+    out["paused_n"] = len(paused)
+
+    def step(res, k):
+        x = depth() - base
+        if x > out["maxdepth"]:
+            out["maxdepth"] = x
+        seen[k] += 1
+        got = absval(res)
+        if got != exp_in[k] and len(bad) < 5:
+            bad.append((k, got, exp_in[k]))
+        u = us.get(k)
+        if u is not None:
+            if not u.called or u.paused:
+                out["waited"] = out.get("waited", 0) + 1
+            else:
+                out["wait_ready"] = out.get("wait_ready", 0) + 1
+            return u
+        return step_outcome(res, k, cfg, out)
+
+    d = defer.Deferred()
+    if cfg["build"] == "fired-first":
+        fire(d, own_value(n, cfg))
+    for k in range(n):
+        d.addBoth(step, k)
+    if cfg["build"] != "fired-first":
+        fire(d, own_value(n, cfg))
+    ops = [("fire", k) for k in order_of(later, cfg["fire_order"], cfg["shuffle_seed"])]
+    unp = [("unpause", k) for k in order_of(paused, cfg["unpause_order"], cfg["shuffle_seed"] + 1)]
+    ops += unp
+    if cfg["merge"] != "after":
+        random.Random(cfg["shuffle_seed"] + 2).shuffle(ops)
+    for op, k in ops:
+        if op == "fire":
+            fire(us[k], own_value(k, cfg))
+        else:
+            us[k].unpause()
+    out["calls_wrong"] = [k for k in range(n) if seen[k] != 1][:5]
+    out["unfinished"] = [k for k in waits if not us[k].called or us[k].paused or us[k].callbacks][:5]
+    if not d.called or d.paused or d.callbacks:
+        out["unfinished"].append("pipeline")
+    res = absval(getattr(d, "result", "<no-result>"))
+    if isinstance(getattr(d, "result", None), Failure):
+        d.addErrback(lambda f: None)
     return res, final
 
 
@@ -335,7 +476,7 @@ def run_loop(family, m, cfg, out):
 # ---------------------------------------------------------------- scenario
 
 def run(sim):
-    family = sim.draw_weighted([("chain", 6), ("inline", 2), ("coro", 2)], "family")
+    family = sim.draw_weighted([("chain", 6), ("inline", 2), ("coro", 2), ("pipe", 3)], "family")
     cls = sim.draw_weighted([(0, 60), (1, 30), (2, 9), (3, 1)], "size_class")
     lo, hi = [(10, 200), (200, 2000), (2000, 20000), (20000, 100000)][cls]
     n = sim.draw_int(lo, hi, "length")
@@ -350,7 +491,20 @@ def run(sim):
                    merge=sim.draw_choice(["after", "shuffled"], "merge"),
                    raise_mod=sim.draw_choice([0, 7, 2], "raise_mod"),
                    recover_mod=sim.draw_choice([3, 1, 0], "recover_mod"),
-                   late_mod=sim.draw_choice([0, 1, 3], "late_mod"))
+                   late_mod=sim.draw_choice([0, 1, 3], "late_mod"),
+                   per_link=sim.draw_choice([1, 2, 3], "per_link"),
+                   ready_mod=sim.draw_choice([0, 1, 2, 5], "ready_mod"),
+                   ready_kind=sim.draw_choice(["helper", "manual", "chained"], "ready_kind"))
+    elif family == "pipe":
+        cfg.update(pause_mod=sim.draw_choice([0, 3, 2], "pause_mod"),
+                   unpause_order=sim.draw_choice(["asc", "desc", "perm"], "unpause_order"),
+                   merge=sim.draw_choice(["after", "shuffled"], "merge"),
+                   raise_mod=sim.draw_choice([0, 7, 2], "raise_mod"),
+                   recover_mod=sim.draw_choice([3, 1, 0], "recover_mod"),
+                   build=sim.draw_choice(["then-fire", "fired-first"], "build"),
+                   wait_mod=sim.draw_choice([0, 5, 2, 50], "wait_mod"),
+                   ready_mod=sim.draw_choice([0, 1, 2, 5], "ready_mod"),
+                   ready_kind=sim.draw_choice(["helper", "manual", "chained"], "ready_kind"))
     else:
         cfg.update(nest_mod=sim.draw_choice([0, 4, 9], "nest_mod"),
                    nest_kind=sim.draw_choice(["gen", "coro-deferred", "coro"], "nest_kind"),
@@ -364,6 +518,8 @@ def run(sim):
         with sim.guard("raised", family):
             if family == "chain":
                 got, want = run_chain(length, cfg, out)
+            elif family == "pipe":
+                got, want = run_pipe(length, cfg, out)
             else:
                 got, want = run_loop(family, length, cfg, out)
         return out, got, want
@@ -382,7 +538,7 @@ def run(sim):
     sim.check("recursion-error", not rec, family, "RecursionError surfaced: %r final %r (length %d, cfg %r)" % (out["bad"][:2], got, n, cfg))
     # 3. the computation is the one the trivial model predicts
     sim.check("callback-inputs", not out["bad"], family, "(k, got, expected): %r (length %d, cfg %r)" % (out["bad"], n, cfg))
-    if family == "chain":
+    if family in ("chain", "pipe"):
         sim.check("each-callback-once", not out["calls_wrong"], family, "callbacks not run exactly once at k=%r (length %d, cfg %r)" % (out["calls_wrong"], n, cfg))
         sim.check("chain-completes", not out["unfinished"], family, "Deferreds left unfired/paused/with callbacks at k=%r (length %d)" % (out["unfinished"], n))
     else:
@@ -394,11 +550,26 @@ def run(sim):
     sim.probe("size_class_%d" % cls)
     if cfg["prefire_mod"] == 1:
         sim.probe("all_prefired")
-    if family == "chain" and cfg["pause_mod"]:
+    if (family == "chain" and cfg["pause_mod"]) or out.get("paused_n"):
         sim.fault("paused_subset")
+    if out.get("ready"):
+        sim.probe("fired_deferred_returned")
+    if out.get("ready_failed"):
+        sim.probe("failed_deferred_returned")
+    if out.get("ready") and cfg.get("ready_kind") == "chained":
+        sim.probe("fired_deferred_result_from_chaining")
+    if family == "chain" and cfg["per_link"] > 1:
+        sim.probe("several_followups_per_link")
+    if out.get("waited"):
+        sim.probe("pipe_step_waits_unfired")
+    if out.get("wait_ready"):
+        sim.probe("pipe_step_own_deferred_fired")
+    if family == "pipe" and cfg["build"] == "fired-first":
+        sim.probe("pipe_fired_before_built")
     if cfg["fail_mod"]:
         sim.fault("failure_results")
-    sim.state((family, cls, cfg["fire_order"], cfg["prefire_mod"], cfg["fail_mod"], cfg.get("pause_mod"), cfg.get("nest_mod"), cfg.get("merge")))
+    sim.state((family, cls, cfg["fire_order"], cfg["prefire_mod"], cfg["fail_mod"], cfg.get("pause_mod"), cfg.get("nest_mod"), cfg.get("merge"),
+               cfg.get("ready_mod"), cfg.get("per_link"), cfg.get("wait_mod"), cfg.get("build")))
     sim.nontrivial = n >= 100
 
 
@@ -406,5 +577,10 @@ def run(sim):
 MUTANTS = [
     "_CONTINUE hand-over replaced by recursion (`chain.append(chainee)` -> `chainee._runCallbacks(); continue`): CAUGHT (stack-grows-with-length:chain, raised:chain:RecursionError)",
     "recursion reintroduced only for failure results (`if isinstance(chainee.result, Failure): chainee._runCallbacks(); continue`): CAUGHT (stack-grows-with-length:chain, raised:chain:RecursionError)",
+    "in-place take-over of an already-fired returned Deferred replaced by pause + continuation + nested `currentResult._runCallbacks()` "
+    "(seeded C02-r3-no-steal-nested-run): CAUGHT (stack-grows-with-length:chain, stack-grows-with-length:pipe)",
+    "the same nested run only when the taken-over result is a Failure (`if isinstance(resultResult, Failure): currentResult.result = resultResult; "
+    "current.pause(); currentResult.callbacks.append(current._continuation()); currentResult._runCallbacks(); break`): CAUGHT "
+    "(stack-grows-with-length:chain, stack-grows-with-length:pipe)",
     "_inlineCallbacks loop unfolding removed (`if waiting[0]:` -> `if False:` in _gotResultInlineCallbacks, so every ready yield recurses): CAUGHT (stack-grows-with-length:inline)",
 ]
